@@ -317,7 +317,9 @@ class CallMixin:
         if py in (int, float):
             return SOpaque((py.__name__, short(args[0]) if args else ""), {"INT" if py is int else "FLOAT"})
         if py is type and len(args) == 1:
-            return SOpaque(("type", short(args[0])))
+            o = SOpaque(("type", short(args[0])))
+            o.__dict__["type_of"] = args[0]
+            return o
         if py is object:
             return SNew("object")
         if py is range:
@@ -349,6 +351,13 @@ class CallMixin:
             for x in v.items:
                 out.extend(self.typeref(x, node))
             return out
+        if isinstance(v, SOpaque) and "type_of" in v.__dict__:
+            o = v.__dict__["type_of"]
+            ks = getattr(o, "kinds", None)
+            if ks and len({KINDS[k].standin for k in ks}) == 1 and all(KINDS[k].repo is None for k in ks):
+                return [TypeRef(py=KINDS[next(iter(ks))].standin)]
+            if isinstance(o, (SList,)):
+                return [TypeRef(py={"list": list, "tuple": tuple, "set": set}[o.pytype])]
         raise self.unmodelled(f"isinstance class argument {short(v)}", node)
 
     def isinstance_(self, v: Any, cls: Any, node: Optional[ast.AST]) -> bool:
